@@ -201,7 +201,8 @@ bool run_one(const Bytes& b, bool count) {
       cx.fail("C02", "heap_leak", "LeakSanitizer: heap memory allocated during this case%s was never freed", g_leak_every > 1 ? " (or one of the few before it)" : "");
   }
   bool failed = cx.failed;
-  if (failed && !cx.prop.empty() && cx.fail_prop != cx.prop && cx.fail_prop != "*") {
+  // --retag=1: this unit is run on a sub-domain in which every oracle bears on the property being checked (e.g. C18: shapes with a type-erasing wrapper)
+  if (failed && !cx.prop.empty() && cx.fail_prop != cx.prop && cx.fail_prop != "*" && cx.argi("retag", 0) == 0) {
     // a violation of an oracle that belongs to another property's check:
     // counted and reported in the evidence, but not this check's verdict.
     if (count) { g_stats.foreign++; g_stats.foreign_sigs[cx.fail_prop + "/" + cx.fail_sig]++; }
